@@ -267,66 +267,75 @@ def norm_key(s):
 
 
 def check_close(F, h, R3):
-    """the arm that calls Option::take on the file context and try_recv in a loop"""
-    cfg = CFG(h)
-    E = ExprBuilder(cfg, fold_named=True)
+    """the arm that calls Option::take on the file context and drains the pipeline with try_recv in a loop - in the handler
+    itself or in a helper function the handler calls behind the take"""
+    cfg_h = CFG(h)
     R3.fn(h.path)
     take = [b.i for b in h.calls() if b.term.callee.path == 'std::option::Option::<T>::take' and 'FileContext' in (b.term.args[0].ty or '')]
-    tryrecv = [b.i for b in h.calls() if b.term.callee.path.endswith('Receiver::<T>::try_recv')]
-    joins = [b.i for b in h.calls() if b.term.callee.path.endswith('JoinHandle::<T>::join')]
     R3.floor('file_context.take() sites', len(take), 1)
-    R3.floor('try_recv drain sites', len(tryrecv), 1)
-    R3.floor('thread join sites', len(joins), 3)
-    if not take or not tryrecv:
+    drains = []
+    if any(b.term.callee.path.endswith('Receiver::<T>::try_recv') for b in h.calls()):
+        drains.append((h, None))
+    for blk in h.calls():
+        tgt = F.get(blk.term.callee.path)
+        if tgt is not None and tgt.crate == 'bin' and tgt.kind != 'closure' and tgt.path != h.path and \
+                any(x.term.callee.path.endswith('Receiver::<T>::try_recv') for x in tgt.calls()):
+            drains.append((tgt, blk.i))
+    R3.floor('functions draining the pipeline with try_recv (handler or helper called by it)', len(drains), 1)
+    if not take or not drains:
         return
-    for tr in tryrecv:
-        # take dominates the drain
-        if any(cfg.dominates(tk, tr) for tk in take):
-            R3.ok(sample={'take_before_drain': True})
-        else:
-            R3.violation(('close-take-after-drain', h.path), 'close drains the pipeline before taking the file context out of the session (a later open could see a half-closed context)', where=h.loc(h.blocks[tr].term.sp))
-        # loop containing tr
-        loops = cfg.loops()
-        mine = [(hd, body) for hd, body in loops.items() if tr in body]
-        if not mine:
-            R3.violation(('close-no-loop', h.path), 'try_recv in close is not inside a loop: threads blocked in a bounded send are not drained', where=h.loc(h.blocks[tr].term.sp))
-            continue
-        hd, lbody = min(mine, key=lambda x: len(x[1]))
-        exits = [(b, s) for b in lbody for s in cfg.succ[b] if s not in lbody and h.blocks[s].term.k != 'unreachable']
-        ok_all = True
-        dest = h.blocks[tr].term.dest
-        for (b, s) in exits:
-            # the exit edge must be the Disconnected arm: switch on discr((res as Err).0) == 1
-            good = False
-            blk = h.blocks[b]
-            if blk.term.k == 'switch':
-                c = show(E.switch_cond(blk))
-                if '@Err.0' in c.replace(' ', '') and 'try_recv' in c:
-                    for v, t in blk.term.d['vals']:
-                        if t == s and v == 1:
+    for (d, callblk) in drains:
+        cfg = CFG(d)
+        E = ExprBuilder(cfg, fold_named=True)
+        R3.fn(d.path)
+        tryrecv = [b.i for b in d.calls() if b.term.callee.path.endswith('Receiver::<T>::try_recv')]
+        joins = [b.i for b in d.calls() if b.term.callee.path.endswith('JoinHandle::<T>::join')]
+        R3.floor('thread join sites in ' + d.path, len(joins), 3)
+        for tr in tryrecv:
+            # take dominates the drain (or the call of the draining helper)
+            at = tr if callblk is None else callblk
+            if any(cfg_h.dominates(tk, at) for tk in take):
+                R3.ok(sample={'take_before_drain': True, 'drain_in': d.path})
+            else:
+                R3.violation(('close-take-after-drain', h.path), 'close drains the pipeline before taking the file context out of the session (a later open could see a half-closed context)',
+                             where=h.loc(h.blocks[at].term.sp))
+            loops = cfg.loops()
+            mine = [(hd, body) for hd, body in loops.items() if tr in body]
+            if not mine:
+                R3.violation(('close-no-loop', d.path), 'try_recv in close is not inside a loop: threads blocked in a bounded send are not drained', where=d.loc(d.blocks[tr].term.sp))
+                continue
+            hd, lbody = min(mine, key=lambda x: len(x[1]))
+            exits = [(b, s_) for b in lbody for s_ in cfg.succ[b] if s_ not in lbody and d.blocks[s_].term.k != 'unreachable']
+            ok_all = True
+            for (b, s_) in exits:
+                good = False
+                blk = d.blocks[b]
+                if blk.term.k == 'switch':
+                    c = show(E.switch_cond(blk))
+                    if '@Err.0' in c.replace(' ', '') and 'try_recv' in c:
+                        for v, t in blk.term.d['vals']:
+                            if t == s_ and v == 1:
+                                good = True
+                        if blk.term.d['otherwise'] == s_ and [v for v, _ in blk.term.d['vals']] == [0]:
                             good = True
-                    if blk.term.d['otherwise'] == s and [v for v, _ in blk.term.d['vals']] == [0]:
-                        good = True
-            if not good:
-                ok_all = False
-                R3.violation(('close-loop-exit', h.path, 'edge'), 'the close drain loop can be left on an edge other than TryRecvError::Disconnected (threads may still block on a full channel while being joined)',
-                             where=h.loc(h.blocks[b].term.sp))
-        if ok_all and exits:
-            R3.ok(sample={'drain_loop_exits': len(exits), 'all_on': 'TryRecvError::Disconnected'})
-        # joins: every path from loop exit to the reply passes... at least two unconditional joins (parse + lc); sort is optional
-        exit_tgts = [s for (_, s) in exits]
-        uncond = 0
-        for j in joins:
-            for s in exit_tgts:
-                if cfg.dominates(s, j):
-                    # unconditional if every path from s to a return passes j
-                    r = cfg.reachable_from(s, avoid={j})
-                    if not any(e in r for e in cfg.exits):
-                        uncond += 1
-        if uncond >= 2:
-            R3.ok(sample={'joins_after_drain_on_all_paths': uncond, 'total_join_sites': len(joins)})
-        else:
-            R3.violation(('close-join-missing', h.path), 'after the drain loop only %d thread join(s) happen on all paths (expected parse and lifecycle thread at least)' % uncond, where=h.loc(None))
+                if not good:
+                    ok_all = False
+                    R3.violation(('close-loop-exit', h.path, 'edge'), 'the close drain loop can be left on an edge other than TryRecvError::Disconnected (threads may still block on a full channel while being joined)',
+                                 where=d.loc(d.blocks[b].term.sp))
+            if ok_all and exits:
+                R3.ok(sample={'drain_loop_exits': len(exits), 'all_on': 'TryRecvError::Disconnected'})
+            exit_tgts = [s_ for (_, s_) in exits]
+            uncond = 0
+            for jn in joins:
+                for s_ in exit_tgts:
+                    if cfg.dominates(s_, jn):
+                        r = cfg.reachable_from(s_, avoid={jn})
+                        if not any(e in r for e in cfg.exits):
+                            uncond += 1
+            if uncond >= 2:
+                R3.ok(sample={'joins_after_drain_on_all_paths': uncond, 'total_join_sites': len(joins)})
+            else:
+                R3.violation(('close-join-missing', h.path), 'after the drain loop only %d thread join(s) happen on all paths (expected parse and lifecycle thread at least)' % uncond, where=d.loc(None))
 
 
 # ---------------------------------------------------------------------------------------------
